@@ -325,6 +325,34 @@ def _exp_interval(V, typ):
     return [("exp_on_interval == gemmlowp reference (leaf multiply shared)", _res(got) == want)]
 
 
+def exp_interval_exact(V, shift):
+    """exp_on_interval... with the leaf multiplication NOT abstracted: exact 64-bit products, for operands of a low-entropy family a = -(k << shift),
+    k a symbolic 10-bit integer (1023 values per shift, the solver propagates them through the bit-blasted products).  Complements exp_interval,
+    whose abstract leaf leaves every value *between* two leaf calls unconstrained: a slip in the glue arithmetic that only matters for some
+    residues of an intermediate (a floor where the reference rounds) shows up there as an abstract counterexample the real leaf need not
+    reproduce; here the intermediates are the real ones."""
+    import ethosu.vela.fp_math as m
+
+    with _width(64):
+        with core.shims(*_shims()):
+            k = V.extra("big", "k", 1, 1023)
+            a = -(k << shift)
+            ia = npint.wide(a)
+            try:
+                got = m.exp_on_interval_between_negative_one_quarter_and_0_excl(a)
+            except (OverflowError, AssertionError, TypeError) as e:
+                return [("exp_on_interval(-(k << %d)) raised %s: %s" % (shift, type(e).__name__, str(e)[:80]), False)]
+        if not V.symbolic:
+            return [("exp_on_interval == gemmlowp reference (exact leaf)", int(got) == _conc_exp_interval(int(a)))]
+        x = ia + _c(1 << 28)
+        x2 = ref_srdhm(x, x)
+        x3 = ref_srdhm(x2, x)
+        x4 = ref_srdhm(x2, x2)
+        t = ref_rdbp(ref_srdhm(ref_rdbp(x4, 2) + x3, _c(715827883)) + x2, 1)
+        want = _c(1895147668) + ref_srdhm(_c(1895147668), x + t)
+        return [("exp_on_interval == gemmlowp reference (exact leaf)", _res(got) == want)]
+
+
 def _conc_srdhm(a, b):
     if a == b == I32MIN:
         return I32MAX
@@ -1199,7 +1227,7 @@ def mulmax_rewrite(V, shared_first):
     return cl
 
 
-FUNCS = {"mulmax_rewrite": mulmax_rewrite, "kernel": kernel, "mbqm": mbqm, "exp_interval": exp_interval, "exp_neg": exp_neg, "exp_neg_struct": exp_neg_struct,
+FUNCS = {"exp_interval_exact": exp_interval_exact, "mulmax_rewrite": mulmax_rewrite, "kernel": kernel, "mbqm": mbqm, "exp_interval": exp_interval, "exp_neg": exp_neg, "exp_neg_struct": exp_neg_struct,
          "lrelu_table": lrelu_table, "quantize_fold": quantize_fold, "hardswish_table": hardswish_table, "quantize_scale": quantize_scale, "tanh_fn": tanh_fn,
          "lut_identity": lut_identity, "softmax_table": softmax_table, "lut8_wrapper": lut8_wrapper}
 
@@ -1241,6 +1269,8 @@ def instances(tier, seed):
         if quick and typ == "int32":
             continue
         out.append(dict(key="exp_interval/%s" % typ, fn="exp_interval", params=dict(typ=typ), weight=3000))
+    for sh in (0, 7, 13, 19):
+        out.append(dict(key="exp_interval_exact/shift%d" % sh, fn="exp_interval_exact", params=dict(shift=sh), weight=3000))
         if quick:
             continue  # exp_on_negative_values (about 150 s of solver time per instance) is in the thorough tier only
         for band in (0, 1, 3, 4, 15, 16, 31, 32, 63, 64, 65, 96, 127):
